@@ -126,7 +126,7 @@ class Interp:
             if kind in ("next", "return"):
                 for exc, cond in rcond.items():
                     u.oblige(s, z3.Not(cond), "post", "no-" + exc, c.props | {"C01"})
-                binds = {}
+                binds = dict(u.entry.locals)      # in postconditions a parameter name means its value at entry
                 if rty is not None:
                     if v is None:
                         v = Val(z3.IntVal(0), NONE)
@@ -489,7 +489,10 @@ class Interp:
             else:
                 cur = st.locals.get(tgt.id)
                 if cur is not None and cur.ty != v.ty and v.ty.k != "tuple" and cur.ty.k not in ("fn", "tuple"):
-                    j = ty_join(cur.ty, v.ty)
+                    try:
+                        j = ty_join(cur.ty, v.ty)
+                    except Unsupported:
+                        j = v.ty          # a local rebound to a value of an unrelated type (x = x[0])
                     if sort_of(j) != sort_of(v.ty) or j.k in ("real", "float"):
                         v = self.coerce(v, j, st, node, ev.frame)
                     else:
